@@ -29,42 +29,61 @@ structure OPAsset where
   holders : List (String × Rat)          -- asset_crypto_balance_holder[asset], insertion order
   exch : List (String × Nat × Rat)       -- (holder, account, balance), insertion order
 
-def openPositions (holderOf : Nat → String) (cs : List Computed) : Except String (List OARow × List OERow × Nat) := do
-  -- first pass
-  let per : List OPAsset := cs.map fun c =>
-    let cost := c.ins.foldl (fun (acc : Option Rat) t =>
-      let sold := (lookupI t.row c.sold).getD 0
-      let tcb := dmul t.fiatWithFee (dsub 1 sold)
-      if gt13 tcb 0 then some (dadd (acc.getD 0) tcb) else acc) none
-    let pos := c.bals.filter (fun b => gt13 (ofUnits b.fin) 0)
-    let holders := pos.foldl (fun acc b => addS acc (holderOf b.acct) (ofUnits b.fin)) []
-    let exch := pos.map (fun b => (holderOf b.acct, b.acct, ofUnits b.fin))
-    { asset := c.asset, cost, holders, exch }
-  let total : Rat := 0
+/-- the per-holder "Total" rows below the data rows of a sheet (`tag` "A" = Asset, "E" = Asset - Exchange): written only when the
+    run has more than one holder, one per holder in first-seen order, starting right after the last data row -/
+def totalRows (tag : String) (hs : List String) (nData : Nat) : List (String × Nat × String) :=
+  if hs.length > 1 then (List.range hs.length).zip hs |>.map fun (k, h) => (tag, 3 + nData + k + 1, h) else []
+
+/-- first pass over one asset: cost of the unsold lot parts (if any is positive), positive balances by holder and by account -/
+def opAsset (holderOf : Nat → String) (c : Computed) : OPAsset :=
+  let cost := c.ins.foldl (fun (acc : Option Rat) t =>
+    let sold := (lookupI t.row c.sold).getD 0
+    let tcb := dmul t.fiatWithFee (dsub 1 sold)
+    if gt13 tcb 0 then some (dadd (acc.getD 0) tcb) else acc) none
+  let pos := c.bals.filter (fun b => gt13 (ofUnits b.fin) 0)
+  let holders := pos.foldl (fun acc b => addS acc (holderOf b.acct) (ofUnits b.fin)) []
+  let exch := pos.map (fun b => (holderOf b.acct, b.acct, ofUnits b.fin))
+  { asset := c.asset, cost, holders, exch }
+
+/-- asset-exchange rows: grouped by holder in holder insertion order, exchanges in insertion order -/
+def opGrouped (p : OPAsset) : List (String × Nat × Rat) :=
+  p.holders.foldl (fun (l : List (String × Nat × Rat)) h => l ++ p.exch.filter (·.1 == h.1)) []
+
+def opARows (p : OPAsset) (unit total : Rat) (ai : Nat) : List OARow :=
+  (List.range p.holders.length).zip p.holders |>.map fun (k, (h, b)) =>
+    let hc := dmul b unit
+    ({ row := ai + k + 1, asset := p.asset, holder := h, bal := b, unit, cost := hc, weight := ddiv hc total } : OARow)
+
+def opERows (p : OPAsset) (unit total : Rat) (ei : Nat) : List OERow :=
+  (List.range (opGrouped p).length).zip (opGrouped p) |>.map fun (k, (h, acct, b)) =>
+    let ec := dmul b unit
+    ({ row := ei + k + 1, asset := p.asset, holder := h, acct, bal := b, unit, cost := ec, weight := ddiv ec total } : OERow)
+
+/-- second pass, one asset: nothing for an asset without unsold cost; `KeyError` when it has cost but no positive balance -/
+def opStep (total : Rat) (acc : List OARow × List OERow × Nat × Nat) (p : OPAsset) : Except String (List OARow × List OERow × Nat × Nat) :=
+  match p.cost with
+  | none => pure acc
+  | some cost =>
+    if p.holders.isEmpty then throw s!"KeyError: {p.asset}"
+    else
+      let tb := p.holders.foldl (fun s h => dadd s h.2) 0
+      let unit := ddiv cost tb
+      pure (acc.1 ++ opARows p unit total acc.2.2.1, acc.2.1 ++ opERows p unit total acc.2.2.2,
+            acc.2.2.1 + (opARows p unit total acc.2.2.1).length, acc.2.2.2 + (opERows p unit total acc.2.2.2).length)
+
+/-- holders of the run in first-seen order (assets in processing order, holders in balance order) -/
+def opHolders (per : List OPAsset) : List String :=
+  per.foldl (fun (acc : List String) p => p.holders.foldl (fun a h => if a.contains h.1 then a else a ++ [h.1]) acc) []
+
+def openPositions (holderOf : Nat → String) (cs : List Computed) : Except String (List OARow × List OERow × List String) := do
+  let per : List OPAsset := cs.map (opAsset holderOf)
   -- exact accumulation order of total_cost_basis: transaction by transaction over all assets
   let total := cs.foldl (fun (t : Rat) c => c.ins.foldl (fun t tx =>
       let sold := (lookupI tx.row c.sold).getD 0
       let tcb := dmul tx.fiatWithFee (dsub 1 sold)
-      if gt13 tcb 0 then dadd t tcb else t) t) total
-  let nHolders := (per.foldl (fun (acc : List String) p => p.holders.foldl (fun a h => if a.contains h.1 then a else a ++ [h.1]) acc) []).length
-  let (ars, ers, _, _) ← per.foldlM (fun (acc : List OARow × List OERow × Nat × Nat) p => do
-    match p.cost with
-    | none => pure acc
-    | some cost =>
-      if p.holders.isEmpty then throw s!"KeyError: {p.asset}"
-      let tb := p.holders.foldl (fun s h => dadd s h.2) 0
-      let unit := ddiv cost tb
-      let (a, e, ai, ei) := acc
-      let arows := (List.range p.holders.length).zip p.holders |>.map fun (k, (h, b)) =>
-        let hc := dmul b unit
-        ({ row := ai + k + 1, asset := p.asset, holder := h, bal := b, unit, cost := hc, weight := ddiv hc total } : OARow)
-      -- asset-exchange rows: grouped by holder in holder insertion order, exchanges in insertion order
-      let grouped := p.holders.foldl (fun (l : List (String × Nat × Rat)) h => l ++ p.exch.filter (·.1 == h.1)) []
-      let erows := (List.range grouped.length).zip grouped |>.map fun (k, (h, acct, b)) =>
-        let ec := dmul b unit
-        ({ row := ei + k + 1, asset := p.asset, holder := h, acct, bal := b, unit, cost := ec, weight := ddiv ec total } : OERow)
-      pure (a ++ arows, e ++ erows, ai + arows.length, ei + erows.length)) ([], [], 3, 3)
-  pure (ars, ers, nHolders)
+      if gt13 tcb 0 then dadd t tcb else t) t) 0
+  let r ← per.foldlM (opStep total) ([], [], 3, 3)
+  pure (r.1, r.2.1, opHolders per)
 
 /-! ### tax_report_jp -/
 inductive JTx | i (t : InTx) | o (t : OutTx) | x (t : IntraTx)
